@@ -19,6 +19,7 @@ import (
 	"golang.org/x/sync/errgroup"
 
 	"github.com/ClickHouse/ch-go/compress"
+	"github.com/ClickHouse/ch-go/internal/vhook"
 	"github.com/ClickHouse/ch-go/otelch"
 	"github.com/ClickHouse/ch-go/proto"
 )
@@ -723,6 +724,7 @@ func (c *Client) Do(ctx context.Context, q Query) (err error) {
 	})
 	g.Go(func() error {
 		// Receiving query result, data and telemetry.
+		defer vhook.At("do.recv.return")
 		defer close(done)
 		if colInfo != nil {
 			defer close(colInfo)
@@ -764,11 +766,14 @@ func (c *Client) Do(ctx context.Context, q Query) (err error) {
 	})
 	g.Go(func() error {
 		<-done
+		vhook.At("do.watch.wake")
 		// Handling query cancellation if needed.
 		if ctx.Err() != nil && !gotException.Load() {
+			vhook.At("do.watch.cancel")
 			err := multierr.Append(ctx.Err(), c.cancelQuery())
 			return errors.Wrap(err, "canceled")
 		}
+		vhook.At("do.watch.skip")
 		return nil
 	})
 	return g.Wait()
